@@ -3,7 +3,8 @@
 
 script  = [session, ...]            (run one after the other in one thread)
 session = {'kind': 'readonly'|'optimistic'|'immediate'|'serializable'|'ddl'|'ddl_api'|'rawconn'
-                   |'multi'|'multi_rev'|'multi_immediate'   (one db_session writing to TWO Database objects),
+                   |'multi'|'multi_rev'|'multi_immediate'   (one db_session writing to TWO Database objects)
+                   |'ddl_multi' with 'mid': ['commit'|'rollback', ...]  (db_session(ddl=True) running 1-3 transactions),
            'end': 'commit'|'raise'|'rollback'|'commit_more', 'cold': bool}
 plan    = fault chain for vlib.faultdb.Recorder
 actors  = [script, ...]  + schedule = [int, ...]   (threads under a deterministic hand-off, one runnable at a time)
@@ -13,9 +14,10 @@ from vlib import faultdb
 
 KINDS = ('readonly', 'optimistic', 'immediate', 'serializable', 'ddl', 'ddl_api', 'rawconn')
 MULTI_KINDS = ('multi', 'multi_rev', 'multi_immediate')
+DDL_MIDS = ([], ['commit'], ['rollback'], ['commit', 'commit'], ['commit', 'rollback'], ['rollback', 'commit'])
 ENDS = ('commit', 'raise', 'rollback', 'commit_more')
 SESSION_KW = {'readonly': {}, 'optimistic': {}, 'immediate': {'immediate': True}, 'serializable': {'serializable': True},
-              'ddl': {'ddl': True}, 'rawconn': {}, 'multi': {}, 'multi_rev': {}, 'multi_immediate': {'immediate': True}}
+              'ddl': {'ddl': True}, 'ddl_multi': {'ddl': True}, 'rawconn': {}, 'multi': {}, 'multi_rev': {}, 'multi_immediate': {'immediate': True}}
 
 
 def databases_needed(sessions):
@@ -197,40 +199,60 @@ class Scheduler(object):
 def define_entities(db):
     from pony.orm import Required, Optional, PrimaryKey
 
+    from pony.orm import Set
+
     class A(db.Entity):
         v = Required(int)
+        rs = Set('R')
 
     class B(db.Entity):
         id = PrimaryKey(int)
         s = Optional(str)
-    return {'A': A, 'B': B}
+
+    class R(db.Entity):          # holds a foreign key to A: used to see whether the database still refuses dangling references
+        a = Required(A)
+    return {'A': A, 'B': B, 'R': R}
+
+
+SETUP_ROWS = ('insert into "A" ("v") values (1)', 'insert into "A" ("v") values (2)',
+              'insert into "B" ("id", "s") values (1, \'x\')', 'insert into "R" ("a") values (1)')
+_schema_script = []
+
+
+def schema_script():
+    """Pony's DDL text for the model (no session involved)"""
+    if not _schema_script:
+        from pony.orm import Database
+        db = Database()
+        define_entities(db)
+        db.bind('sqlite', ':memory:')
+        db.generate_mapping(check_tables=False, create_tables=False)
+        _schema_script.append(db.schema.generate_create_script())
+    return _schema_script[0]
 
 
 def make_template(path):
     """schema from Pony's DDL text, rows inserted with plain sqlite3: no Pony session is involved in the setup"""
     import sqlite3
-    from pony.orm import Database
     for p in (path, path + '-journal'):
         if os.path.exists(p):
             os.remove(p)
-    db = Database()
-    define_entities(db)
-    db.bind('sqlite', ':memory:')
-    db.generate_mapping(check_tables=False, create_tables=False)
-    script = db.schema.generate_create_script()
     con = sqlite3.connect(path)
-    con.executescript(script)
-    con.execute('insert into "A" ("v") values (1)')
-    con.execute('insert into "A" ("v") values (2)')
-    con.execute('insert into "B" ("id", "s") values (1, \'x\')')
+    con.executescript(schema_script())
+    for sql in SETUP_ROWS:
+        con.execute(sql)
     con.commit()
     con.close()
     return path
 
 
 class Env(object):
-    def __init__(self, template, path, plan=None, ndb=1):
+    def __init__(self, template, path, plan=None, ndb=1, memory=False):
+        """memory=True: one Database on ':memory:' (the provider then keeps its connection pooled even where it closes the
+        connection of a file database, e.g. after a ddl session); schema and rows are put in through the raw connection"""
+        import sqlite3
         from pony.orm import Database
+        self.memory = memory
         self.scheduler = None
         self.labels = {}
         self.rec = faultdb.Recorder(plan)
@@ -238,13 +260,21 @@ class Env(object):
         self.locks = {}
         for i in range(ndb):
             p = path if i == 0 else '%s.%d' % (path, i + 1)
-            for q in (p, p + '-journal'):
-                if os.path.exists(q):
-                    os.remove(q)
-            shutil.copyfile(template, p)
             db = Database()
             E = define_entities(db)
-            db.bind('sqlite', p, create_db=False, factory=faultdb.make_factory(self.rec, tag=i), timeout=0)
+            if memory:
+                p = ':memory:'
+                db.bind('sqlite', p, factory=faultdb.make_factory(self.rec, tag=i), timeout=0)
+                raw = db.provider.pool.con
+                sqlite3.Connection.executescript(raw, schema_script())
+                for sql in SETUP_ROWS:
+                    sqlite3.Connection.execute(raw, sql)
+            else:
+                for q in (p, p + '-journal'):
+                    if os.path.exists(q):
+                        os.remove(q)
+                shutil.copyfile(template, p)
+                db.bind('sqlite', p, create_db=False, factory=faultdb.make_factory(self.rec, tag=i), timeout=0)
             db.generate_mapping(check_tables=False, create_tables=False)
             prov = db.provider
             for name in ('pre_transaction_lock', 'transaction_lock'):
@@ -360,6 +390,18 @@ def run_session(env, sess, serial, yield_=None):
                     second(v=50 + serial)
                     objs[-1].v += 1
                     y()
+            elif kind == 'ddl_multi':
+                mids = list(sess.get('mid') or [])
+                for ti in range(len(mids) + 1):
+                    name = 'Scratch%d_%d' % (serial, ti)
+                    db.execute('create table if not exists "%s" ("x" integer)' % name, {}, {})
+                    y()
+                    if ti < len(mids):
+                        (commit if mids[ti] == 'commit' else rollback)()
+                        y()
+                for ti in range(len(mids) + 1):
+                    db.execute('drop table if exists "Scratch%d_%d"' % (serial, ti), {}, {})
+                y()
             elif kind == 'ddl':
                 name = 'Scratch%d' % serial
                 db.execute('create table if not exists "%s" ("x" integer)' % name, {}, {})
@@ -392,6 +434,30 @@ def run_session(env, sess, serial, yield_=None):
         raise
     except Exception as e:
         return e
+    return None
+
+
+class Sentinel(Exception):
+    pass
+
+
+def dangling_reference_refused(env):
+    """a plain session that inserts a row referencing a row that does not exist must be refused by the database
+    (foreign keys are enforced on every connection Pony hands out); returns a message or None"""
+    from pony.orm import db_session
+    for i, db in enumerate(env.dbs):
+        try:
+            with db_session(optimistic=True):
+                db.execute('insert into "R" ("a") values (424242)', {}, {})
+                raise Sentinel()
+        except Sentinel:
+            return ('a following plain session stored a row with a dangling reference (insert into "R" ("a") values (424242) '
+                    'was not refused): foreign key enforcement is off on the connection it got from the pool of database %d' % i)
+        except WouldBlock:
+            raise
+        except Exception as e:
+            if type(e).__name__ != 'IntegrityError':
+                return 'the dangling-reference probe failed with %s: %s' % (type(e).__name__, str(e)[:160])
     return None
 
 
@@ -430,10 +496,31 @@ def check_thread_state(env, where, final=False):
         if any(r.obj is pc for pc in pool_cons):
             if r.closed or not r.is_open():
                 return "%s: the pool's current connection #%d is closed" % (where, r.serial)
+            fk = foreign_keys_state(r.obj)
+            if fk != 1:
+                hit = [e for e in env.rec.indexed() if e['conn'] == r.serial and e['fault'] and (e['sql'] or '').startswith('PRAGMA')
+                       and e['kind'] == 'execute' and not e['in_tx']]
+                init = [e for e in hit if 'foreign_keys = true' in e['sql'] and e['fault'] == 'before']
+                return ("%s: connection #%d stays in the pool with foreign key enforcement switched off (PRAGMA foreign_keys = %r, "
+                        "every new connection starts with 1)%s; calls: %s"
+                        % (where, r.serial, fk,
+                           ' -- its initialisation was interrupted by the injected fault at call %s (%s)' % (init[0]['i'], init[0]['sql'])
+                           if init and not any('foreign_keys = false' in (e['sql'] or '') for e in env.rec.indexed() if e['conn'] == r.serial) else '',
+                           ' '.join(env.rec.brief()[-16:])))
         elif not r.closed:
             return ('%s: connection #%d is neither the pool\'s current connection nor closed (leaked open); calls: %s'
                     % (where, r.serial, ' '.join(env.rec.brief()[-14:])))
     return None
+
+
+def foreign_keys_state(con):
+    """PRAGMA foreign_keys read through the raw connection (base-class call: not logged, never a fault point)"""
+    import sqlite3
+    try:
+        row = sqlite3.Connection.execute(con, 'PRAGMA foreign_keys').fetchone()
+        return row[0] if row is not None else None
+    except sqlite3.Error as e:
+        return 'unreadable: %s' % e
 
 
 def internal_failure(env, exc, label):
@@ -490,6 +577,14 @@ def followups(env, stats=None):
     msg = check_thread_state(env, 'after the follow-up session in the same thread')
     if msg:
         return msg
+    try:
+        msg = dangling_reference_refused(env)
+    except WouldBlock as e:
+        return 'a following session in the same thread would block for ever: %s' % e
+    if msg:
+        return msg + ';' + env.earlier() + ' calls: ' + ' '.join(env.rec.brief()[-14:])
+    if env.memory:
+        return None            # a second thread would get an empty in-memory database of its own
 
     def other():
         env.set_label('follow-up session in another thread')
@@ -510,9 +605,9 @@ def followups(env, stats=None):
     return res
 
 
-def run_script_case(template, path, script, plan, info=None):
+def run_script_case(template, path, script, plan, info=None, memory=False):
     """single-thread case: returns violation message / 'inconclusive: ...' / None; info receives the call log facts"""
-    env = Env(template, path, plan, databases_needed(script))
+    env = Env(template, path, plan, 1 if memory else databases_needed(script), memory=memory)
     try:
         for si, sess in enumerate(script):
             env.set_label('session %d (%s, end=%s%s)' % (si, sess['kind'], sess.get('end', 'commit'), ', cold' if sess.get('cold') else ''))
